@@ -114,21 +114,23 @@ RECURSIVE SumOver(_, _)
 SumOver(f, D) == IF D = {} THEN 0 ELSE LET x == CHOOSE x \in D : TRUE IN f[x] + SumOver(f, D \ {x})
 
 \* smooth weighted round-robin: pick the largest current weight (ties: the larger String rank), lower it by
-\* the total, then raise everybody by their own weight.  TLCEval keeps TLC from stacking lazy values.
+\* the total, then raise everybody by their own weight.
+\* (Evaluation notes for TLC: "f \o <<>>" turns a lazily evaluated function over 1..N into a concrete tuple,
+\*  and heavy intermediate values are passed as operator arguments, which TLC evaluates once, not as LETs.)
 WrrPick(ids, cur, T) == CHOOSE i \in ids : \A j \in ids : cur[j] < cur[i] \/ (cur[j] = cur[i] /\ T[j] <= T[i])
-WrrStep(w, ids, cur, total, pick) == [i \in ids |-> cur[i] + w[i] - (IF i = pick THEN total ELSE 0)]
+WrrStep(w, cur, total, pick) == [i \in DOMAIN w |-> cur[i] + w[i] - (IF i = pick THEN total ELSE 0)] \o <<>>
 RECURSIVE Smooth(_, _, _, _, _, _, _)
 Smooth(w, T, ids, cur, total, n, acc) ==
     IF n = 0 THEN acc
-    ELSE Smooth(w, T, ids, TLCEval(WrrStep(w, ids, cur, total, WrrPick(ids, cur, T))), total, n - 1,
-                TLCEval(Append(acc, WrrPick(ids, cur, T) - 1)))
+    ELSE Smooth(w, T, ids, WrrStep(w, cur, total, WrrPick(ids, cur, T)), total, n - 1,
+                Append(acc, WrrPick(ids, cur, T) - 1))
 
-WeightCycle(W, T) ==
-    LET w     == TLCEval(Scaled(W))
-        ids   == {i \in DOMAIN W : w[i] > 0}
-        small == SelectSeq([i \in DOMAIN W |-> i], LAMBDA i : w[i] = 0)
-        total == SumOver(w, ids)
-    IN  Smooth(w, T, ids, TLCEval([i \in ids |-> w[i]]), total, total, TLCEval([i \in DOMAIN small |-> small[i] - 1]))
+WeightCycleOf(w, T, ids, small, total) == Smooth(w, T, ids, w, total, total, small)
+WeightCycleScaled(w, T) ==
+    WeightCycleOf(w, T, {i \in DOMAIN w : w[i] > 0},
+                  SelectSeq([i \in DOMAIN w |-> i - 1] \o <<>>, LAMBDA k : w[k + 1] = 0),
+                  SumOver(w, {i \in DOMAIN w : w[i] > 0}))
+WeightCycle(W, T) == WeightCycleScaled(Scaled(W) \o <<>>, T)
 
 CountIn(s, x) == Cardinality({i \in DOMAIN s : s[i] = x})
 
@@ -148,24 +150,27 @@ StoredAs(U, l, e)   == CHOOSE m \in Range(l) : U.host[m] = U.host[e]     \* defi
 (***************************************************************************)
 EmptyRing == [p \in {} |-> None]
 
-RingAdd(U, r, e) ==
+\* lastWriter / byArg: the two named deviations, as explicit parameters (the oracle runs both variants)
+RingAddP(U, r, e, lastWriter) ==
     [p \in DOMAIN r \cup U.pts[e] |->
-        IF p \in U.pts[e] /\ (KF_CollisionLastWriter \/ p \notin DOMAIN r \/ e < r[p]) THEN e ELSE r[p]]
+        IF p \in U.pts[e] /\ (lastWriter \/ p \notin DOMAIN r \/ e < r[p]) THEN e ELSE r[p]]
+RingAdd(U, r, e) == RingAddP(U, r, e, KF_CollisionLastWriter)
 
 \* m is removed, Sn is the member set afterwards; arg is the endpoint value passed to Remove
-RingRemove(U, r, m, arg, Sn) ==
-    LET gone == IF KF_RemoveSizedByArgument THEN U.pts[arg] ELSE U.pts[m]
-    IN  IF KF_CollisionLastWriter \/ KF_RemoveSizedByArgument
-        THEN [p \in DOMAIN r \ gone |-> r[p]]
-        ELSE [p \in RingPts(U, Sn) |-> IF r[p] = m THEN Owner(U, p, Sn) ELSE r[p]]
+RingRemoveP(U, r, m, arg, Sn, lastWriter, byArg) ==
+    IF lastWriter \/ byArg
+    THEN [p \in DOMAIN r \ (IF byArg THEN U.pts[arg] ELSE U.pts[m]) |-> r[p]]
+    ELSE [p \in RingPts(U, Sn) |-> IF r[p] = m THEN Owner(U, p, Sn) ELSE r[p]]
+RingRemove(U, r, m, arg, Sn) == RingRemoveP(U, r, m, arg, Sn, KF_CollisionLastWriter, KF_RemoveSizedByArgument)
 
-RECURSIVE RingRefreshFrom(_, _, _, _)
-RingRefreshFrom(U, l, r, eps) ==
+RECURSIVE RingRefreshFromP(_, _, _, _, _)
+RingRefreshFromP(U, l, r, eps, lastWriter) ==
     IF eps = <<>> THEN r
-    ELSE LET e == Head(eps)
-         IN  IF HasHost(U, l, e) THEN RingRefreshFrom(U, l, r, Tail(eps))
-             ELSE RingRefreshFrom(U, Append(l, e), RingAdd(U, r, e), Tail(eps))
-RingRefresh(U, eps) == RingRefreshFrom(U, <<>>, EmptyRing, eps)
+    ELSE IF HasHost(U, l, Head(eps)) THEN RingRefreshFromP(U, l, r, Tail(eps), lastWriter)
+    ELSE RingRefreshFromP(U, Append(l, Head(eps)), RingAddP(U, r, Head(eps), lastWriter) @@ EmptyRing, Tail(eps), lastWriter)
+         \* ("f @@ EmptyRing" = f; it makes TLC build the function now instead of stacking lazy ones)
+RingRefreshP(U, eps, lastWriter) == RingRefreshFromP(U, <<>>, EmptyRing, eps, lastWriter)
+RingRefresh(U, eps) == RingRefreshP(U, eps, KF_CollisionLastWriter)
 
 MachineLookup(r, c) == IF DOMAIN r = {} THEN None ELSE r[Succ(DOMAIN r, c)]
 
